@@ -41,6 +41,13 @@ class Check(PropCheck):
                 # a length written through the public field of the child only
                 ops += ['pick nonroot %d' % rng.randint(0, 10 ** 6), 'set_pedge $0 ' + vf.enc_len(gen.exact_len(rng))]
             trees.append((ops, len(t.nodes()) + ne + 1))
+        # arenas holding several components (Tree::add called twice): nodes of different components have no common ancestor; the queries
+        # must answer (an error) rather than panic, and inside each component everything stays exact
+        S = vf.enc_str; Ln = vf.enc_len
+        trees.append((['new', 'add %s -' % S('A'), 'add %s -' % S('B')], 3))
+        trees.append((['new', 'add - -', 'add - -', 'add_child 0 %s %s -' % (S('A'), Ln(1.0)), 'add_child 1 %s %s -' % (S('B'), Ln(2.0)),
+                       'add_child 1 %s - -' % S('C'), 'add_child 2 %s %s -' % (S('D'), Ln(0.5))], 8))
+        trees.append(([gen.parse_op('((A:1,B:2):1,C:3);'), 'add %s -' % S('Z'), 'add_child 5 %s %s -' % (S('Y'), Ln(1.5))], 8))
         self.stats['trees'] = len(trees)
         for k, (ops, bound) in enumerate(trees):
             q = ['dump']
